@@ -29,6 +29,8 @@ def cell_id(c):
         return "%s:%s %s %s/%s" % (k, c["lt"], c["op"], c["rt"], c["form"])
     if k == "var":
         return "var:%s/%s@%s" % (c["name"], c["access"], "+".join(c["scopes"]))
+    if k == "fnsig":
+        return "fnsig:%s:%s(%s)@%s" % (c["why"], c["name"], ",".join(c["sig"]), "+".join(c["scopes"]))
     if k == "fn":
         return "fn:%s(%s)@%s" % (c["name"], ",".join(c["sig"]), "+".join(c["scopes"]))
     return "stmt:%s%s@%s" % (c["stmt"], "(%s)" % c["action"] if c.get("action") else "", "+".join(c["scopes"]))
